@@ -3,14 +3,14 @@ module verifharness
 go 1.23.0
 
 require (
+	github.com/DataDog/datadog-go/v5 v5.6.0
 	github.com/anishathalye/porcupine v1.3.0
 	github.com/platinummonkey/go-concurrency-limits v0.0.0
+	github.com/rcrowley/go-metrics v0.0.0-20180503174638-e2704e165165
 	google.golang.org/grpc v1.71.1
 )
 
 require (
-	github.com/DataDog/datadog-go/v5 v5.6.0 // indirect
-	github.com/rcrowley/go-metrics v0.0.0-20180503174638-e2704e165165 // indirect
 	golang.org/x/net v0.38.0 // indirect
 	golang.org/x/sys v0.31.0 // indirect
 	golang.org/x/text v0.23.0 // indirect
